@@ -60,6 +60,16 @@ func main() {
 	switch *fProp {
 	case "C05":
 		run = runC05(*fTier)
+	case "C06":
+		run = runC06(*fTier)
+	case "C10":
+		run = runC10(*fTier)
+	case "C11":
+		run = runC11(*fTier)
+	case "C18":
+		run = runC18(*fTier)
+	case "C19":
+		run = runC19(*fTier)
 	default:
 		fmt.Fprintln(os.Stderr, "sysrig: unknown property", *fProp)
 		os.Exit(64)
